@@ -66,16 +66,20 @@ def make_target(table):
                 # content that no serializer can write: objects of the interpreter, or text that is not valid unicode (a lone
                 # surrogate, as file names and broken input give them) in an attribute or in the message itself
                 self.unser_n = n = getattr(self, "unser_n", 0) + 1
-                if n % 3 == 0:
+                if n % 4 == 0:
                     x.lock = threading.Lock()
                     x.fn = lambda: 1
-                elif n % 3 == 1:
+                elif n % 4 == 1:
                     x.note = "not unicode: \udc80"
                     x.lock = threading.Lock()
-                else:
+                elif n % 4 == 2:
                     x.lock = threading.Lock()
                     if x.args and isinstance(x.args[0], str):
                         x.args = (x.args[0] + " \udc80\ud800",) + tuple(x.args[1:])
+                else:
+                    # the exception itself is clean, but it was raised while another one was being handled whose text cannot be
+                    # encoded: that text is part of the traceback that travels with it
+                    x.__context__ = OSError("cannot open report-\udcff.txt")
             return x
 
         @P.expose
@@ -114,6 +118,22 @@ def make_target(table):
     return Raiser
 
 
+def make_session_counter():
+    import Pyro5.api as P
+
+    @P.behavior(instance_mode="session")
+    class Counter(object):
+        """one instance per connection: it counts the calls that connection made on it"""
+        def __init__(self):
+            self.n = 0
+
+        @P.expose
+        def bump(self):
+            self.n += 1
+            return self.n
+    return Counter
+
+
 def mapped(ser, v):
     """the serializer's mapping on plain data (tuples become lists under json and msgpack)"""
     if isinstance(v, tuple):
@@ -138,6 +158,7 @@ def run_jobs(jobs, table):
         sc = S.CUR
         d = P.Daemon(host="127.0.0.1")
         uri = d.register(make_target(table)(), "raiser")
+        d.register(make_session_counter(), "counter")
         drv = memnet.ServerDriver(d)
         proxies = {}
         for job in jobs:
@@ -146,7 +167,8 @@ def run_jobs(jobs, table):
             config.MAX_MESSAGE_SIZE = job.get("max_message_size", 1024 * 1024 * 1024)
             tr = {"kind": kind, "carriable": carriable, "ck": ck, "ser": ser, "cls": spec["cls"], "argshape": job["a"], "attrshape": job["t"],
                   "outcome": "returned", "same_class": False, "args_equal": False, "attrs_equal": False, "has_traceback": False,
-                  "is_pyro_error": False, "names_class": False, "names_message": False, "next_ok": False, "tb_own": True}
+                  "is_pyro_error": False, "names_class": False, "names_message": False, "next_ok": False, "tb_own": True,
+                  "session_kept": True}
             try:
                 p = proxies.get(ser)
                 if p is None or p._pyroConnection is None:
@@ -154,6 +176,9 @@ def run_jobs(jobs, table):
                     p._pyroSerializer = ser
                     p._pyroBind()
                 caught = None
+                # (only where the daemon itself makes the substitute: a class the *client* cannot rebuild makes the proxy drop its own connection)
+                watch_session = bool(spec.get("unser")) and kind != "unknown_to_receiver" and ck != "batch"
+                bumped = p._pyroInvoke("bump", [], {}, objectId="counter") if watch_session else 0
                 p._pyroMaxRetries = job.get("retries", 0)     # (a proxy told to retry repeats the call; what it raises in the end is the same)
                 try:
                     if ck == "call":
@@ -207,6 +232,8 @@ def run_jobs(jobs, table):
                     tr["caught"] = type(caught).__name__ + ": " + text[:80]
                 try:
                     tr["next_ok"] = p.ok(7) == 7
+                    if watch_session:
+                        tr["session_kept"] = p._pyroInvoke("bump", [], {}, objectId="counter") == bumped + 1
                 except (S.Hang, S.SchedAbort):
                     raise
                 except Exception:
@@ -273,7 +300,7 @@ def run_shared_instance(ctx, table, rng):
                         tr = {"kind": "builtin", "carriable": True, "ck": "reraise", "ser": ser, "cls": "ValueError", "argshape": "str_int",
                               "attrshape": "one_int", "outcome": "returned", "same_class": False, "args_equal": False, "attrs_equal": False,
                               "has_traceback": False, "is_pyro_error": False, "names_class": False, "names_message": False, "next_ok": False,
-                              "tb_own": True}
+                              "tb_own": True, "session_kept": True}
                         recs[i] = tr
                         try:
                             p = P.Proxy(uri)
